@@ -473,7 +473,17 @@ def _leaf_stack(space, singles):
     return np.stack([np.asarray(s) for s in singles])
 
 
-def present(space, singles, mode, container, T=1, alt=None):
+def _keys_in(space, key_order):
+    """Members of a Dict space in the order an environment emits them: the space's own (sorted) order, reversed, or rotated."""
+    items = list(space.spaces.items())
+    if key_order == "reversed":
+        items = items[::-1]
+    elif key_order == "rotated":
+        items = items[1:] + items[:1]
+    return items
+
+
+def present(space, singles, mode, container, T=1, alt=None, key_order=None):
     """Raw observation object holding `singles` (a list of single observations) in the given shape mode
     ('single' | 'b1' | 'batch' | 'step_env') and container ('numpy' | 'torch' | 'python' | 'npscalar' |
     'tensordict' | 'mixed')."""
@@ -484,12 +494,12 @@ def present(space, singles, mode, container, T=1, alt=None):
         if container == "tensordict":
             from tensordict import TensorDict
 
-            inner = {k: present(s, [x[k] for x in singles], mode, "torch", T, alt) for k, s in space.spaces.items()}
+            inner = {k: present(s, [x[k] for x in singles], mode, "torch", T, alt) for k, s in _keys_in(space, key_order)}
             n = len(singles)
             bs = {"single": [], "b1": [1], "batch": [n], "step_env": [T, n // T]}[mode]
             return TensorDict(inner, batch_size=bs)
         out = {}
-        for i, (k, s) in enumerate(space.spaces.items()):
+        for i, (k, s) in enumerate(_keys_in(space, key_order)):
             c = ["numpy", "torch", "python"][i % 3] if container == "mixed" else container
             out[k] = present(s, [x[k] for x in singles], mode, c, T, alt)
         return out
@@ -1015,10 +1025,15 @@ def _run_algo(case, rec: Recorder):
         for ci, idx in enumerate(_compositions(rng, B)):
             container = _pick_container(ci, space)
             mode = "b1" if len(idx) == 1 else "batch"
-            ctx = dict(base_ctx, mode=mode, container=container, rows=len(idx), composition=idx)
+            # an environment emits the members of a Dict observation in its own order (the space sorts its keys): the
+            # same observation, whatever the order of its members and whatever the container
+            key_order = [None, "reversed", "rotated"][(ci // 3 + ci) % 3] if _container_kind(space) == "Dict" else None
+            ctx = dict(base_ctx, mode=mode, container=container, rows=len(idx), composition=idx, key_order=key_order)
+            if key_order:
+                rec.hit("consequence_single_calls_with_members_in_another_key_order")
             try:
-                out = _single_outputs(agent, algo, present(space, [singles[i] for i in idx], mode, container), len(idx),
-                                      batch_norm=bool(case["seed"] % 2))
+                out = _single_outputs(agent, algo, present(space, [singles[i] for i in idx], mode, container, key_order=key_order),
+                                      len(idx), batch_norm=bool(case["seed"] % 2))
             except Exception as e:
                 _crash(rec, e, "consequence_single", site, **ctx)
                 continue
@@ -1517,6 +1532,8 @@ SINGLE_SPECS = [
     _dict(a=_box((3,)), b=_disc(3)),
     _dict(a=_box(()), b=_md(2, 2)),
     _dict(img=_box((3, 4, 4), "uint8", "255"), v=_box((3,))),
+    # two image members (two feature extractors whose outputs are concatenated) around a vector member
+    _dict(rgb=_box((3, 4, 4), "uint8", "255"), pos=_box((3,)), depth=_box((1, 4, 4), "float32", "asym")),
     _tuple(_box((3,)), _disc(3)),
     _tuple(_box((2, 4, 4), "float32", "asym"), _md(2, 3), _box(())),
 ]
